@@ -602,6 +602,65 @@ def case_ble_session(p):
     return out
 
 
+def case_ble_realclient(p):
+    """The library's own GATT client class (AIOHomeKitBleakClient: the real fragment-size negotiation, MTU 100) with only the radio replaced: a
+    sequence of plain and encrypted requests on the same and on different characteristics of ONE client object.  No fragment on the air is
+    larger than MTU-3, whatever was sent on that characteristic before."""
+    from aiohomekit import pdu as libpdu
+    from aiohomekit.controller.ble import client as libclient
+    from aiohomekit.controller.ble.bleak import AIOHomeKitBleakClient
+    from aiohomekit.controller.ble.key import DecryptionKey, EncryptionKey
+
+    seed = p.get("seed", 0)
+    c2a, a2c = det_bytes(seed, "c17r-c2a"), det_bytes(seed, "c17r-a2c")
+    session = blepdu.Session(c2a, a2c)
+    ek, dk = EncryptionKey(c2a), DecryptionKey(a2c)
+    state = {"gatt": None}
+
+    class Client(AIOHomeKitBleakClient):
+        async def write_gatt_char(self, handle, data, response=None):
+            return await state["gatt"].write_gatt_char(handle, data, response)
+
+        async def read_gatt_char(self, handle):
+            return await state["gatt"].read_gatt_char(handle)
+
+    client = Client("00:11:22:33:44:55")
+    air = client.mtu_size - 3
+    handles = {}
+    out = []
+    saved = libclient.random
+    try:
+        for k, (hname, enc, L) in enumerate(p["requests"]):
+            h = handles.setdefault(hname, type("Handle", (), {"properties": ["read", "write"], "max_write_without_response_size": None, "uuid": hname, "__hash__": lambda self_: hash(id(self_))})())
+            body = _fill(L, seed + k)
+            tid = _rot(BLE_TIDS, k + L)
+
+            def responder(req):
+                echo = bytes(b ^ 0x5A for b in req.body)
+                return blepdu.response_fragments(req.tid, 0, echo, blepdu.uniform_parts(len(echo), 60))
+
+            gatt = state["gatt"] = _Gatt(air, session if enc else None, responder)
+            libclient.random = _Rand(tid)
+            det = {**p, "request": k, "handle": hname, "enc": enc, "L": L, "mtu_minus_3": air}
+            try:
+                res = _drive(libclient.ble_request(client, ek if enc else None, dk if enc else None, libpdu.OpCode(2), h, 9, body))
+            except core.HarnessError:
+                raise
+            except Exception as e:  # noqa: BLE001
+                out += [(s_ + ":real-client", {**det, **d}) for s_, d in gatt.problems] or [(f"ble:honest-exchange-raises:{type(e).__name__}:real-client", {**det, "err": str(e)[:160]})]
+                break
+            big = [n for n in gatt.writes if n > air]
+            if big:
+                out.append(("ble:fragment-larger-than-negotiated:real-client", {**det, "offenders": big[:4]}))
+                break
+            if gatt.request is None or gatt.request.body != body or bytes(res[1]) != bytes(b ^ 0x5A for b in body):
+                out.append(("ble:request-or-response-differs:real-client", det))
+                break
+    finally:
+        libclient.random = saved
+    return out
+
+
 def case_ble_sched(p):
     """One execution of the gated BLE harness (c06_ble.BleH), judged by its 'c17:' clause only: a read that completes carries the value of the
     characteristic it asked for, whatever was cancelled, timed out, replayed or dropped before."""
@@ -633,6 +692,7 @@ def _work_sched(item, seed, tier):
 
 
 CASES = {
+    "ble_realclient": case_ble_realclient,
     "ble_session": case_ble_session,
     "ble_sched": case_ble_sched,
     "ble_request": case_ble_request,
@@ -644,6 +704,8 @@ CASES = {
 
 # ================================================================ work
 def _symbols(name, p):
+    if name == "ble_realclient":
+        return (name,)
     if name == "ble_session":
         return (name, "ble:enc" if p["enc"] else "ble:plain")
     if name == "ble_request":
@@ -745,6 +807,14 @@ def run(ctx):
                 for enc in (1, 0) if n_ == 2 else (1,):
                     sess.append({"f": f, "enc": enc, "lens": list(lens) + [5], "seed": seed})
     work += _chunks("ble_session", sess, 60)
+    rc = []
+    pool = [("a", 0, 10), ("a", 1, 10), ("a", 0, 300), ("a", 1, 300), ("b", 1, 200), ("b", 0, 90), ("a", 1, 85), ("a", 0, 95)]
+    for n_ in (2, 3) if quick else (2, 3, 4):
+        for reqs in _it.product(pool, repeat=n_):
+            if n_ >= 3 and quick and reqs[0][0] == "b":
+                continue
+            rc.append({"requests": [list(r) for r in reqs], "seed": seed})
+    work += _chunks("ble_realclient", rc, 80)
     ctx.bounds["ble_request"] = dict(
         grid="fragment budgets 8..64 x body lengths 0..200 x {plain, encrypted}",
         realistic=f"budgets {REAL_SIZES} x " + ("boundary lengths (0,1,2, k-th fragment boundary -1/0/+1 for k<4, 255..257, 1000, 2048, 4999, 5000)" if quick else "every length 0..5000") + " x {plain, encrypted}",
